@@ -297,6 +297,18 @@ class Ev:
             self.env[t.id] = v
         elif isinstance(t, (ast.Tuple, ast.List)):
             vs = list(v)
+            stars = [i for i, e in enumerate(t.elts) if isinstance(e, ast.Starred)]
+            if len(stars) == 1:                       # a, *rest, z = values
+                i = stars[0]
+                after = len(t.elts) - i - 1
+                if len(vs) < len(t.elts) - 1:
+                    raise Raised("ValueError")
+                for e, x in zip(t.elts[:i], vs[:i]):
+                    self.assign(e, x)
+                self.assign(t.elts[i].value, vs[i:len(vs) - after])
+                for e, x in zip(t.elts[i + 1:], vs[len(vs) - after:]):
+                    self.assign(e, x)
+                return
             if len(vs) != len(t.elts):
                 raise Undecided("unpacking arity")
             for e, x in zip(t.elts, vs):
